@@ -127,7 +127,10 @@ class Ctx:
         if tag == 'Cls':
             return VClass(ty.args[0])
         if tag == 'Opt':
-            return VOpt(self._const(hint + '.isnone', z3.BoolSort()), self.fresh(ty.args[0], hint))
+            inner = self.fresh(ty.args[0], hint)
+            if isinstance(inner, VAny):
+                inner.notnone = True
+            return VOpt(self._const(hint + '.isnone', z3.BoolSort()), inner)
         if tag == 'Io':
             return self.new_io(ty.args[0], hint)
         if tag == 'Tuple':
@@ -460,7 +463,19 @@ def _find_axioms(t):
     return [z3.Or(t == -1, z3.And(t >= st, t >= 0, t + m <= L, z3.SubString(buf, t, m) == sub))]
 
 
-AXIOMS = {'Find': _find_axioms, 'RFind': _find_axioms}
+def _refind_axioms(t):
+    r, buf, pos = t.arg(0), t.arg(1), t.arg(2)
+    return [z3.Or(t == -1, z3.And(t >= pos, t >= 0, t <= z3.Length(buf)))]
+
+
+def _rematch_axioms(t):
+    r, buf, pos = t.arg(0), t.arg(1), t.arg(2)
+    f = S.ReFind(r, buf, pos)
+    return [S.MStart(t) == f, z3.Implies(f >= 0, z3.And(S.MStart(t) <= S.MEnd(t), S.MEnd(t) <= z3.Length(buf)))] \
+        + _refind_axioms(f)
+
+
+AXIOMS = {'Find': _find_axioms, 'RFind': _find_axioms, 'ReFind': _refind_axioms, 'ReMatch': _rematch_axioms}
 
 
 def collect_apps(f, names, out, seen):
